@@ -67,7 +67,7 @@ type Op struct {
 func (o Op) String() string {
 	s := o.K
 	switch o.K {
-	case "add", "trigger", "get", "barwait", "traverse", "avgadj", "proxyr", "proxyw", "isrun", "cur", "comp", "abrt", "id":
+	case "add", "trigger", "get", "barwait", "traverse", "traversehold", "avgadj", "proxyr", "proxyw", "isrun", "cur", "comp", "abrt", "id":
 		s += fmt.Sprint(o.B)
 	case "incr", "setcur", "refill", "ewma", "ewmaset":
 		s += fmt.Sprintf("%d(%d)", o.B, o.N)
@@ -457,6 +457,8 @@ type runner struct {
 	scratch [512]byte
 	pty     *Pty
 	// user-side values deliberately reused between bars
+	hold         chan struct{}
+	holdO        sync.Once
 	sharedExt    mpb.BarOption
 	decorScratch []decor.Decorator
 }
@@ -593,7 +595,7 @@ func (r *runner) do(client int, op Op) {
 	x := r.x
 	var bar *mpb.Bar
 	switch op.K {
-	case "add", "write", "writebuf", "refresh", "cancel", "shutdown", "undelay", "yield", "sleep", "recvnotify", "pwait", "join", "closepty":
+	case "add", "write", "writebuf", "refresh", "cancel", "shutdown", "undelay", "yield", "sleep", "recvnotify", "release", "pwait", "join", "closepty":
 	default:
 		if op.B < 0 || op.B >= len(r.bars) || r.bars[op.B] == nil {
 			x.Calls = append(x.Calls, Call{Client: client, Op: op.String(), Inv: mcrt.Step(), Ret: mcrt.Step() + 1, Res: "skipped"})
@@ -678,6 +680,17 @@ func (r *runner) do(client int, op Op) {
 			r.p.Shutdown()
 		case "undelay":
 			close(r.delay)
+		case "traversehold":
+			// the callback runs on the bar's goroutine and keeps it busy until a "release"
+			first := true
+			bar.TraverseDecorators(func(decor.Decorator) {
+				if first {
+					first = false
+					<-r.hold
+				}
+			})
+		case "release":
+			r.holdO.Do(func() { close(r.hold) })
 		case "recvnotify":
 			v := <-r.notify
 			x.Notified = append(x.Notified, v)
@@ -735,7 +748,7 @@ func (r *runner) do(client int, op Op) {
 
 // Run executes the program as the main thread of an mcrt execution.
 func (sp *Spec) Run(x *X) {
-	r := &runner{sp: sp, x: x, bars: make([]*mpb.Bar, len(sp.Bars)), stop: make(chan struct{})}
+	r := &runner{sp: sp, x: x, bars: make([]*mpb.Bar, len(sp.Bars)), stop: make(chan struct{}), hold: make(chan struct{})}
 	x.FailWrite = sp.FailWrite
 	ctx, cancel := context.WithCancel(context.Background())
 	r.cancel = cancel
